@@ -683,6 +683,10 @@ func (g *sqlGen) makePrimaryTable(i int) {
 	if i == 0 && g.tableHint != "" {
 		stem = g.tableHint
 	}
+	if i > 0 && g.pr(0.15) {
+		stem = strings.ToLower(stem[:1]) + stem[1:] // a table struct that is not exported
+		g.p.Feature("sql:unexported-table-struct")
+	}
 	t := g.newTable(stem, false)
 	d := t.decl
 	// id field
